@@ -65,6 +65,8 @@ type simTransport struct {
 	r       *Run
 	closed  bool
 	started int
+	// ignoreCancel: responses in flight are still delivered after the request context was cancelled
+	ignoreCancel bool
 }
 
 func newSimTransport(r *Run) *simTransport {
@@ -85,6 +87,12 @@ func (t *simTransport) RoundTrip(req *http.Request) (*http.Response, error) {
 	t.started++
 	t.mu.Unlock()
 	t.poke()
+	if t.ignoreCancel {
+		// a transport that does not abort a request in flight when its context is cancelled: the response
+		// still arrives (the scheduler keeps delivering), as with a server that had already answered
+		rep := <-nr.reply
+		return rep.resp, rep.err
+	}
 	select {
 	case rep := <-nr.reply:
 		return rep.resp, rep.err
